@@ -31,6 +31,8 @@ NOT_ON_HOST_GENERATION = ("APX_F", "AVX10_2")
 # Places where the database is coarser than the architecture (Intel SDM), keyed by (name, opcode string): operand -> read width in
 # bits.  `imul ax, r/m8` reads AL only (the database writes X:<ax>); `mov Sreg, r/m` uses the low 16 bits of the source.
 READ_WIDTH_OVERRIDE = {("imul", "F6 /5"): {0: 8}, ("mov", "8E /r"): {1: 16}}
+# forms whose query_rw_info answer depends on the VALUE of an immediate (x86instapi.cpp: only the vpternlogd/q predicate does)
+IMM_SWEEPS = {"vpternlogd": range(256), "vpternlogq": range(256)}
 FEATURE_IMPLIES = (("AVX512_F", "AVX2"), ("AVX512_F", "AVX"), ("AVX2", "AVX"))
 LEGACY_PREFIXES = {0x66, 0xF2, 0xF3, 0x2E, 0x36, 0x3E, 0x26, 0x64, 0x65, 0x67, 0xF0}
 
@@ -168,7 +170,7 @@ def reg_class(rt):
     return rt
 
 
-def instantiate(form, choice, same, with_implicit, rng=None, mode="x64"):
+def instantiate(form, choice, same, with_implicit, rng=None, mode="x64", imm=None):
     """returns (tokens, dbops) or None. choice: list of 'reg'|'mem'|'imm' per operand."""
     pools = Pools(form, same, rng, mode)
     bq = "q" if mode == "x64" else "d"
@@ -231,7 +233,7 @@ def instantiate(form, choice, same, with_implicit, rng=None, mode="x64"):
                 tok = "m.%d.-.-.abs" % size
             d.update(kind=2, size=size)
         else:
-            v = o["immValue"] if o["immValue"] is not None else 1
+            v = o["immValue"] if o["immValue"] is not None else (1 if imm is None else imm)
             tok = "i.%d" % v
         ids.append(rid)
         dbops.append(d)
@@ -312,7 +314,16 @@ def x86_queries(db, rng=None, mode="x64"):
                 alt[i] = "mem"
                 variants.append((alt, False))
         has_vex_twin = f["prefix"] == "EVEX" and any(g["prefix"] == "VEX" for g in by_name[f["name"]])
-        for vi, (choice, same) in enumerate(variants):
+        variants = [(ch_, same_, None) for ch_, same_ in variants]
+        has_imm = any(c_ == "imm" and o_["immValue"] is None for o_, c_ in zip(ops, base_choice))
+        if f["name"] in IMM_SWEEPS and has_imm:
+            # the answer depends on the immediate VALUE: the whole relevant set (judged through Row.destRule)
+            for v in IMM_SWEEPS[f["name"]]:
+                variants.append((base_choice, False, v))
+        elif has_imm:
+            # no other special case looks at an immediate's value today; two more values keep the correspondence honest about that
+            variants += [(base_choice, False, 0), (base_choice, False, 255)]
+        for vi, (choice, same, immv) in enumerate(variants):
             settings = [("-", "-")]
             if f["kmask"]:
                 settings.append(("-", "k1"))
@@ -320,6 +331,16 @@ def x86_queries(db, rng=None, mode="x64"):
                     settings.append(("z", "k1"))
             if has_vex_twin:
                 settings.append(("E", "-"))
+            if immv is not None:
+                # sweeps: unmasked everywhere, zeroing on the 128-bit form; merge-masking re-adds the read (judged with a few values)
+                settings = [("-", "-")]
+                if f["name"] in IMM_SWEEPS and f["kmask"]:
+                    if ops[0]["regType"] == "xmm":
+                        settings.append(("z", "k1"))
+                    if immv in (0x08, 0x7F, 0xFF, 0x55, 0xF0):
+                        settings.append(("-", "k1"))
+                if f["name"] in IMM_SWEEPS and ops[0]["regType"] == "ymm":
+                    continue
             for opts, extra in settings:
                 for with_impl in (True, False):
                     if same == "high":
@@ -332,7 +353,7 @@ def x86_queries(db, rng=None, mode="x64"):
                         if with_impl:
                             rng.setstate(st)       # the short form uses the same registers
                     else:
-                        inst = instantiate(f, choice, same, with_impl, None, mode)
+                        inst = instantiate(f, choice, same, with_impl, None, mode, immv)
                     if inst is None:
                         continue
                     toks, dbops = inst
@@ -346,8 +367,12 @@ def x86_queries(db, rng=None, mode="x64"):
                                 d["memAlt"] = sibling_mem_sizes(f, by_name[f["name"]], choice, i, mode)
                     name = f["name"]
                     line = "x %s %s %s %s %s" % (mode, name, opts, extra, " ".join(toks))
-                    qs.append({"line": line.strip(), "form": fi, "mode": mode, "dbops": dbops, "implicit": with_impl,
-                               "variant": "%s%s%s" % ("high" if same == "high" else "seeded" if same == "rand" else "same" if same else "distinct", "/mem" if "mem" in choice else "/reg",
+                    rule = 0
+                    if name in ("vpternlogd", "vpternlogq") and len(toks) == 4 and toks[3].startswith("i.") and \
+                            (extra == "-" or "z" in opts):
+                        rule = int(toks[3][2:]) % 256 + 1
+                    qs.append({"line": line.strip(), "form": fi, "mode": mode, "dest_rule": rule, "dbops": dbops, "implicit": with_impl,
+                               "variant": "%s%s%s" % ("imm" if immv is not None else "high" if same == "high" else "seeded" if same == "rand" else "same" if same else "distinct", "/mem" if "mem" in choice else "/reg",
                                                       ("/" + opts + extra) if (opts, extra) != ("-", "-") else ""),
                                "opts": opts, "extra": extra})
     return qs
@@ -428,7 +453,7 @@ def make_row(q, form, ans, featids, flagbits):
                    d["runLen"], d["rmChecked"], tuple(d["memAlt"])) for d in q["dbops"])
     imp = tuple((featids[a], featids[b]) for a, b in FEATURE_IMPLIES)
     return (q.get("mode", "x64") == "x64", dbops, dbr, dbw, feat_checked, tuple(ext), imp, tuple(ans["oplist"]), int(ans["rf"], 16), int(ans["wf"], 16),
-            tuple(ans.get("feat", [])))
+            tuple(ans.get("feat", [])), q.get("dest_rule", 0))
 
 
 # ------------------------------------------------------------------------------------------------------------------------------
@@ -504,7 +529,7 @@ def a64_queries(db):
 def make_a64_row(q, ans):
     dbops = tuple((d["kind"], d["gp"], d["size"], d["read"], d["write"], d["lo"], d["width"], d.get("rwidth", d["width"]), d["follower"],
                    d["runLen"], d["rmChecked"], tuple(d["memAlt"])) for d in q["dbops"])
-    return (False, dbops, 0, 0, False, (), (), tuple(ans["oplist"]), 0, 0, ())
+    return (False, dbops, 0, 0, False, (), (), tuple(ans["oplist"]), 0, 0, (), 0)
 
 
 # ------------------------------------------------------------------------------------------------------------------------------
@@ -516,14 +541,14 @@ def lb(b):
 
 
 def lean_row(r):
-    mode64, dbops, dbr, dbw, fc, ext, imp, iops, ir, iw, feat = r
+    mode64, dbops, dbr, dbw, fc, ext, imp, iops, ir, iw, feat, rule = r
     ds = ", ".join("⟨%d, %s, %d, %s, %s, %d, %d, %d, %d, %d, %s, [%s]⟩" % (k, lb(gp), sz, lb(rd), lb(wr), lo, wd, rwd, fo, rl, lb(rc),
                                                                             ", ".join(map(str, ma)))
                    for (k, gp, sz, rd, wr, lo, wd, rwd, fo, rl, rc, ma) in dbops)
     is_ = ", ".join("⟨0x%x, %d, %d, %d, 0x%x, 0x%x, 0x%x⟩" % o for o in iops)
-    return "⟨%s, [%s], 0x%x, 0x%x, %s, [%s], [%s], [%s], 0x%x, 0x%x, [%s]⟩" % (
+    return "⟨%s, [%s], 0x%x, 0x%x, %s, [%s], [%s], [%s], 0x%x, 0x%x, [%s], %d⟩" % (
         lb(mode64), ds, dbr, dbw, lb(fc), ", ".join(map(str, ext)), ", ".join("(%d, %d)" % p for p in imp), is_, ir, iw,
-        ", ".join(map(str, feat)))
+        ", ".join(map(str, feat)), rule)
 
 
 def csv(xs):
@@ -531,14 +556,14 @@ def csv(xs):
 
 
 def monitor_line(r):
-    mode64, dbops, dbr, dbw, fc, ext, imp, iops, ir, iw, feat = r
+    mode64, dbops, dbr, dbw, fc, ext, imp, iops, ir, iw, feat, rule = r
     w = ["mon", str(int(mode64)), str(len(dbops))]
     for (k, gp, sz, rd, wr, lo, wd, rwd, fo, rl, rc, ma) in dbops:
         w += [str(k), str(int(gp)), str(sz), str(int(rd)), str(int(wr)), str(lo), str(wd), str(rwd), str(fo), str(rl), str(int(rc)), csv(ma)]
     w += ["%x" % dbr, "%x" % dbw, str(int(fc)), csv(ext), csv([x for p in imp for x in p]), str(len(iops))]
     for o in iops:
         w += ["%x" % o[0], str(o[1]), str(o[2]), str(o[3]), "%x" % o[4], "%x" % o[5], "%x" % o[6]]
-    w += ["%x" % ir, "%x" % iw, csv(feat)]
+    w += ["%x" % ir, "%x" % iw, csv(feat), str(rule)]
     return " ".join(w)
 
 
